@@ -72,6 +72,26 @@ def cases(tier: str) -> list:
             if runs_distinct(seq):
                 break
         cs.append({"kind": "rand", "seq": seq})
+    # sparse and large owner numbers (instruction indexes far beyond the small ones: 7/8, 31/32, 63/64, hundreds) — a set
+    # of small ints iterates in ascending order in CPython, larger ones do not (seeded change C19-9)
+    for _ in range(2000 if thorough else 300):
+        n = rng.randint(3, 8)
+        base = rng.choice([5, 6, 7, 8, 14, 15, 16, 29, 30, 31, 32, 62, 63, 64, 100, 127, 255, 1000])
+        pool = sorted(rng.sample(range(base, base + 12), rng.randint(2, 5)))
+        while True:
+            seq = [[rng.random() < 0.4, rng.choice(pool)] for _ in range(n)]
+            if runs_distinct(seq):
+                break
+        cs.append({"kind": "rand-big", "seq": seq})
+        if rng.random() < 0.5:       # program order over the same sparse owners
+            po, prev = [], None
+            for o in pool:
+                if rng.random() < 0.8:
+                    po.append([False, o])
+                if rng.random() < 0.6:
+                    po.append([True, o])
+            if po:
+                cs.append({"kind": "po-big", "seq": po})
     # the access plan the simulator builds for whole programs (`_build_acc_plan`: one queue per register)
     for k in range(4000 if thorough else 400):
         cs.append({"kind": "plan", "id": k})
@@ -145,7 +165,8 @@ def explore(seq):
             try:
                 q2.dequeue(o)
             except Exception:  # noqa: BLE001
-                deq.append([o, -1])
+                # a rejected removal removes nothing: -2 when the queue changed although `dequeue` raised
+                deq.append([o, -1 if key(q2) == key(q) else -2])
                 continue
             k = key(q2)
             if k not in index:
